@@ -41,7 +41,7 @@ RULE = ("a case is one history of 1-300 decoded records from 1-6 aircraft (DF17 
         "by accident; distinct = distinct (frame sequence) hashes; non-trivial = at least two aircraft with a record each")
 
 ASSUMPTIONS = [
-    "positions are pre-decoded in the driver by the real decode_position with a fixed receiver reference, as main() does before "
+    "positions are pre-decoded in the driver by the real decode_position with a fixed receiver reference (none at all for one history in four), as main() does before "
     "updating the table",
     "'first' and 'latest' record of an aircraft are positions in the history (arrival order), as in the code the property was read from; one "
     "record in ten carries a timestamp up to 3 s older than its predecessor's; first/last seen are whole seconds",
